@@ -3,6 +3,7 @@ from ..gens import *
 
 ID = "C12"
 LEAN_MODULE = "Ucfg.Props.C12"
+LEVEL_TEXT = 'Get/Set/Remove/Has theorems on the path model (read-your-writes, other keys untouched, removal shifts, has iff get); MODEL_IS_SPEC: any disagreement with the model on a history is a violation.'
 CORRESPONDENCE = "Ops.opStep (Path.pathGet/pathSet/pathRemove/pathHas, Conv) ~ (*Config).Set*/SetChild/Remove/Merge/getters/Has/CountField/Child"
 RULE = ("operation histories (length <= 25, thorough 60) of Set*/SetChild/Remove/Merge/Child and reads (typed getters, Has, CountField, "
         "IsDict/IsArray/GetFields) over a small overlapping address space: names a,b,c, dotted paths, indices 0..3 and past the end, "
